@@ -140,7 +140,7 @@ PROPERTY = dict(
                           fetch='contig <=5, bin <=6, fragment size / site / read interval symbolic'),
             'thorough': dict(tiling='lengths <=5 / <=3', fetch='contig <=6')},
     outside=['worker scheduling (results are a multiset union; order-insensitive)', 'htslib merge', 'MatePairIterator ordering of paired-end reads (the break criterion is checked for single-end reads no longer than the fetch margin)',
-             'molecule-level tag equality between serial and parallel run beyond ownership+completeness (argued on paper: the owning job sees every read of the molecule)'],
+             'molecule-level tag equality between serial and parallel run beyond ownership+completeness (argued on paper: the owning job sees every read of the molecule)', 'cut sites outside [0, contig length) (CHIC reads at the very contig ends) in the region-tiling API'],
     assumptions=['stub molecule/iterator classes passed through the public run_tagging_task API', 'float cut: %r' % (_CUTS,),
                  'fragment lies within fragment_size of its site (documented meaning of the margin)'],
     trusted=['spec/tagging.py', 'vlib/astcut.py', 'vlib/floatcut.py'],
